@@ -1,4 +1,4 @@
-CONSTANTS N = 2 W <- W31 None <- NoneV MaxSeq = 6 MaxEv = 10 Forkers <- NoForkers HeadsOnly = FALSE LazyFrames = FALSE MaxOthers = 1
+CONSTANTS N = 2 W <- W31 None <- NoneV Rule <- StdRule MaxSeq = 6 MaxEv = 10 Forkers <- NoForkers HeadsOnly = FALSE LazyFrames = FALSE MaxOthers = 1
 SPECIFICATION Spec
 INVARIANTS AtroposIsRoot NoDoubleConfirm CheatersExact AncestryClosed FramesAllowed EmitState
 PROPERTY BlocksAppendOnly
